@@ -80,7 +80,7 @@ impl Server {
 //@@ unit lpush_arm arm src/network/server.rs Server::process_normal_command "\"LPUSH\""
 //@@   rewrite R3
 //@@   rewrite RPCALL "crate::storage::commands::lists::handle_lpush" verif_handle_push
-    fn lpush_arm(&mut self, parts: &[RespFrame], db: usize) -> (r: Result<RespFrame>)
+    fn lpush_arm(&mut self, parts: &[RespFrame], db: usize, conn_id: u64) -> (r: Result<RespFrame>)
         requires parts@.len() >= 1,
         ensures push_notifies(*old(self), *final(self), parts@, db, r),
 //@@ body
@@ -89,7 +89,7 @@ impl Server {
 //@@ unit rpush_arm arm src/network/server.rs Server::process_normal_command "\"RPUSH\""
 //@@   rewrite R3
 //@@   rewrite RPCALL "crate::storage::commands::lists::handle_rpush" verif_handle_push
-    fn rpush_arm(&mut self, parts: &[RespFrame], db: usize) -> (r: Result<RespFrame>)
+    fn rpush_arm(&mut self, parts: &[RespFrame], db: usize, conn_id: u64) -> (r: Result<RespFrame>)
         requires parts@.len() >= 1,
         ensures push_notifies(*old(self), *final(self), parts@, db, r),
 //@@ body
